@@ -431,7 +431,9 @@ def c02():
         if q.entry == "vh_opcode" and q.defines.get("DEPTHSEL") in (0, 2) and q.defines.get("IMPL") == 0 and "quotient" not in q.name:
             q.name = "stack_" + q.name; qs.append(q)
     qs += slot_queries("C02", ["vh_put_copy", "vh_assoc_op", "vh_next_end", "vh_insert", "vh_delete_gc", "vh_temp_copy"], 2, 3)
-    qs += [Q("newslot_cap", "slots.cpp", "vh_newslot_cap", {"NS": 1}, unwind=8, unwindset={"newSlot": 3}),
+    qs += [Q(f"newslot_cap_buf{b}", "slots.cpp", "vh_newslot_cap", {"NS": 1, "BUFSZ": b}, unwind=8,
+             unwindset={"newSlot": b + 2, "vh_newslot_cap": b + 4, "push_back": 4, "reserve": 4, "lid:ll_calloc_split": 20, "lid:ll_malloc_split": 20, "lid:ll_realloc_split": 20, "lid:ll_memmove_sym": 20},
+             cc_defs=["LL_MEM_CASES=" + ",".join(str(k) for k in sorted({0, 128 * b} | {2 * u * b for u in range(0, 5)} | {8 * c for c in (1, 2, 3, 4, 8)}))]) for b in (1, 2, 3)] + [\
            Q("runfsm_long", "fsm.cpp", "vh_runfsm_long", {"NS": 0, "LONGN": 66}, unwind=70, unwindset={"runFSM": 68, "vh_runfsm_long": 68})]
     return qs
 
@@ -459,7 +461,9 @@ def frozen_queries(pid):
     return qs
 @prop("C08")
 def c08():
-    return frozen_queries("C08") + [Q("lazy_glyph", "lazy.cpp", "vh_lazy_glyph", {"NG": 3}, unwind=8, stubs=["_ZNK9graphite210GlyphCache6Loader10read_glyphEtRNS_9GlyphFaceEPi"])]
+    return frozen_queries("C08") + [Q("lazy_glyph", "lazy.cpp", "vh_lazy_glyph", {"NG": 3}, unwind=8, stubs=["_ZNK9graphite210GlyphCache6Loader10read_glyphEtRNS_9GlyphFaceEPi"])] + \
+           [Q(f"font_ctor_g{g}", "fontctor.cpp", "vh_font_ctor", {"NG": g, "NS": 0}, unwind=g + 3, unwindset={"Font": g + 2, "vh_font_ctor": g + 2, "lid:ll_malloc_split": 4, "lid:ll_calloc_split": 4},
+              cc_defs=[f"LL_MEM_CASES=0,{4 * g}"]) for g in (1, 2, 3)]
 @prop("C09")
 def c09(): return frozen_queries("C09")
 
